@@ -59,7 +59,7 @@ def build(member):
     items = tuple(replace(it, handler=hname("item%d" % i)) if ("item%d" % i) in sub else it
                   for i, it in enumerate(items))
     env = M.type_env(lk_handler=hname("lk") if "lk" in sub else None, l1_datatype=M.SECT_DT_WRAP)
-    return M.place(items, placement, env, cut_datatype=M.SECT_DT_WRAP,
+    return M.place(items, placement, env, cut_datatype=M.SECT_DT_WRAP, schema_datatype=M.SECT_DT_WRAP,
                    schema_handler=hname("schema") if "schema" in sub else None,
                    cuts_handler=hname("cuts") if "cuts" in sub else None,
                    mids_handler=hname("mids") if "mids" in sub else None)
@@ -185,6 +185,21 @@ def check_case(S, sch, hist, text, acc, mid):
         if r[0] != "config-error" or rec.calls:
             return bad("duplicate-name-not-all-or-nothing", [r, [c[0] for c in rec.calls]],
                        ["config-error", []])
+    # 6. names no entry of this load uses: a single surplus name is harmless, two surplus names that
+    #    normalise to the same key are refused, nothing called
+    rec = Recorder()
+    m = {nm: rec.make(nm) for nm in uniq}
+    m["zz-unused"] = rec.make("zz-unused")
+    r = call(handler, m)
+    if r != ("ok",) or [c[0] for c in rec.calls] != names:
+        return bad("surplus-name-mishandled", [r, [c[0] for c in rec.calls]], names)
+    rec = Recorder()
+    m = {nm: rec.make(nm) for nm in uniq}
+    m["zz-unused"] = rec.make("zz-unused")
+    m["ZZ-Unused"] = rec.make("zz-unused")
+    r = call(handler, m)
+    if r[0] != "config-error" or rec.calls:
+        return bad("duplicate-unused-name-not-all-or-nothing", [r, [c[0] for c in rec.calls]], ["config-error", []])
     if not uniq:
         r = call(handler, {})
         if r != ("ok",):
